@@ -7,7 +7,7 @@ class _FullStackLoad(FullCheck):
   """Every 4th case: a complete client stack (real transports, pools, timeout sink) on the
   simulated network; judged at final quiescence only."""
   ID = 'C04'
-  FOCUS = ('load:',)
+  FOCUS = ('load:', 'removal:')
   REQUIRED_CLASSES = ()
 
 
@@ -21,7 +21,8 @@ class C04(LBCheck):
           'never logged. Removal/contraction: no request afterwards, Close at once iff idle or marked '
           'down, else exactly when drained. Every 4th case instead drives a complete real client stack '
           '(C01\'s scenarios: real transports, pools, timeouts, faults, membership changes) and requires every '
-          'balancer node to carry load 0 at final quiescence (all calls completed, quiet for 4 T_max). '
+          'balancer node to carry load 0 at final quiescence (all calls completed, quiet for 4 T_max) and no '
+          'client-side connection to a departed member to be open any more. '
           'non-trivial = a dispatch or removal judged; distinct as C03')
   REQUIRED_CLASSES = ('heap', 'aperture', 'removed:idle', 'removed:loaded', 'removed:down', 'removed:down+loaded',
                       'rejoin-while-draining', 'complete:reply', 'complete:error', 'complete:timeout',
